@@ -1282,6 +1282,6 @@ func TestCheck(t *testing.T) {
 		return
 	}
 	ex := &executor{schema: schema}
-	n := run.N(1500, 30000)
+	n := run.N(1200, 30000)
 	run.Each(n, 8, func(i int) { runCase(run, ex, i) })
 }
